@@ -202,7 +202,8 @@ class RawSession:
     """One client socket + one agent socket. All calls are recorded."""
     _next_sid = [0]
 
-    def __init__(self, rec, cfg, sid=1, maxbuf=4080, net=None):
+    def __init__(self, rec, cfg, sid=1, maxbuf=4080, net=None, api_cfg=None):
+        """api_cfg: the credentials the caller ultimately wants (installed later through set_keys); default: cfg itself"""
         from gufo.snmp import _fast
         self.rec, self.cfg, self.sid = rec, cfg, sid
         self.net = net or next_net()
@@ -225,7 +226,8 @@ class RawSession:
             self.sock = DeadSocket(e)
             if cfg.engine:
                 self.engines.add(cfg.engine)
-        e = dict(ev="Open", sid=sid, maxbuf=maxbuf, apiuser=text(cfg.user), apiauth=cfg.auth, apipriv=cfg.priv)
+        ac = api_cfg or cfg
+        e = dict(ev="Open", sid=sid, maxbuf=maxbuf, apiuser=text(ac.user), apiauth=ac.auth, apipriv=ac.priv)
         e.update(cfg.ev())
         rec.emit(e)
         self.iter = None
